@@ -1,4 +1,4 @@
-import FatVerif.Proofs.FormatImage10
+import FatVerif.Proofs.FormatImage11
 import FatVerif.Model.FatView
 import FatVerif.Proofs.DirEntry
 /-!
@@ -69,7 +69,7 @@ theorem format_no_other_writes (o : FormatOpts) (d d' : Dev) (h : FormatRun o d 
   unfold FmtRegion
   rcases hw with hw | hw | hw | hw | hw | hw
   · -- tail
-    rcases R.tail with ⟨h32, La, Lc, Li, Ll, hLt, hWa, hTc, ⟨tc, _, hTi⟩, hll⟩ | ⟨h32, hll⟩
+    rcases R.tail with ⟨h32, La, Lc, Li, Ll, hLt, hWa, hTc, ⟨tc, _, hTi⟩, hll, _⟩ | ⟨h32, hll⟩
     · rw [hLt] at hw
       simp only [List.mem_append] at hw
       rcases hw with hw | hw | hw | hw
@@ -147,7 +147,7 @@ theorem tail_mem {o : FormatOpts} {t : Nat} {boot : FBoot} {ft : FatType} {Lb Lk
     (boot.bpb.reserved * boot.bpb.bps ≤ off ∧
       off + bs.length ≤ (boot.bpb.reserved + boot.bpb.fats * boot.bpb.sectorsPerFat) * boot.bpb.bps) ∨
     (boot.bpb.reserved + boot.bpb.fats * boot.bpb.sectorsPerFat) * boot.bpb.bps ≤ off := by
-  rcases R.tail with ⟨h32, La, Lc, Li, Ll, hLt, hWa, hTc, ⟨tc, _, hTi⟩, hll⟩ | ⟨h32, hll⟩
+  rcases R.tail with ⟨h32, La, Lc, Li, Ll, hLt, hWa, hTc, ⟨tc, _, hTi⟩, hll, _⟩ | ⟨h32, hll⟩
   · rw [hLt] at hw
     simp only [List.mem_append] at hw
     rcases hw with hw | hw | hw | hw
@@ -208,7 +208,7 @@ theorem format_fsinfo (o : FormatOpts) (d d' : Dev) (h : FormatRun o d d') :
   have o2 := fatBeg_32 hg h32
   have o3 := @fatBeg_le_end boot
   have hB := hg.bps_ge
-  rcases R.tail with ⟨_, La, Lc, Li, Ll, hLt, hWa, hTc, ⟨tc, htc, hTi⟩, hll⟩ | ⟨hne, _⟩
+  rcases R.tail with ⟨_, La, Lc, Li, Ll, hLt, hWa, hTc, ⟨tc, htc, hTi⟩, hll, _⟩ | ⟨hne, _⟩
   · refine ⟨tc, htc, fun g x hx => ?_⟩
     rw [(hg.f32 h32).2.1, Nat.one_mul, ← Dev.bytes_writesOf, hf.writes, hLt]
     simp only [List.append_assoc]
@@ -269,7 +269,7 @@ theorem format_root_empty (o : FormatOpts) (d d' : Dev) (h : FormatRun o d d') :
   have o3 := @fatBeg_le_end boot
   have hB := hg.bps_ge
   rw [← Dev.bytes_writesOf, hf.writes]
-  rcases R.tail with ⟨h32, La, Lc, Li, Ll, hLt, hWa, hTc, ⟨tc, htc, hTi⟩, hll⟩ | ⟨hne, hll⟩
+  rcases R.tail with ⟨h32, La, Lc, Li, Ll, hLt, hWa, hTc, ⟨tc, htc, hTi⟩, hll, _⟩ | ⟨hne, hll⟩
   · rw [if_pos h32] at hx
     rw [hLt]
     simp only [List.append_assoc]
@@ -448,5 +448,379 @@ theorem formatFat_view_fat16 (o : FormatOpts) (d d' : Dev) (h : FormatRun o d d'
       rw [Array.getD_eq_getD_getElem?, Array.getElem?_eq_getElem (by rw [hsize]; exact h1)] at e1 e0
       simp only [Option.getD_some] at e1 e0
       rw [e1, e0]
+
+/-! ### FAT32 -/
+
+/-- the bytes of a FAT copy after a successful `format_volume` of a FAT32 volume whose FAT has no room for the BAD
+    markers (`capacity ≤ 0x0FFFFFF0`), relative to the copy; FAT32 entries are known up to their four reserved top
+    bits, which `Fat32::set` copies from what it read -/
+theorem fat32_bytes (o : FormatOpts) (d d' : Dev) (h : FormatRun o d d') {boot : FBoot} {Lb Lk Lz Lf Lr Lt}
+    (hf : FormatFacts o d d' boot .fat32 Lb Lk Lz Lf Lr Lt) (tc : Nat) (htc : boot.bpb.totalClusters = .ok tc)
+    (hcap : boot.bpb.sectorsPerFat * boot.bpb.bps * 8 / 32 ≤ 0x0FFFFFF0)
+    (g : Nat → Nat) (i : Nat) (hi : i < boot.bpb.fats) :
+    let G := fun x => d'.bytes g (boot.bpb.reserved * boot.bpb.bps + i * (boot.bpb.sectorsPerFat * boot.bpb.bps) + x)
+    (∀ x, x < 4 → G x = (bytesLe32 (o.media ||| 0x0FFFFF00)).getD x 0) ∧
+    (∀ x, 4 ≤ x → x < 8 → G x = 255) ∧
+    Entry32 G 2 0x0FFFFFFF ∧
+    (∀ c, tc + 2 ≤ c → c < boot.bpb.sectorsPerFat * boot.bpb.bps * 8 / 32 → Entry32 G c 0x0FFFFFFF) ∧
+    (∀ x, 12 ≤ x → x < (tc + 2) * 4 → G x = 0) := by
+  intro G
+  have R := hf.regions
+  have hg := hf.geom
+  obtain ⟨d0, hl0, hs0, hlog⟩ := hf.log
+  obtain ⟨dK, hsK, hsizeK, hfr⟩ := hlog.rest
+  obtain ⟨tc', s, dA, dB, dC, htc', hsA, hsizeA, hrun, hsf, hsr, hsizeC, _⟩ := hfr.fmt
+  rw [htc] at htc'; cases htc'
+  rw [fmtSlice_eq boot.bpb .fat32 hg.extFlags] at hrun
+  have hmir : 0 < (fmtSlice boot.bpb).mirrors := by show 0 < boot.bpb.fats; omega
+  have hbpsO : boot.bpb.bps = o.bps := by
+    obtain ⟨c, _, _, _, _, _, _, _, hboot, _⟩ := formatChecked_ok_layout h.acc h.tot hf.checked
+    rw [hboot]; rfl
+  have hdev : (fmtSlice boot.bpb).beginOff + (fmtSlice boot.bpb).mirrors * (fmtSlice boot.bpb).size ≤ dA.img.size := by
+    rw [hsizeA, hsizeK, hs0]
+    exact Nat.le_trans hg.window_le (by rw [hbpsO]; exact h.size)
+  have hB := hg.bps_ge
+  have hmod : boot.bpb.sectorsPerFat * boot.bpb.bps * 8 / 32 % 4294967296 =
+      boot.bpb.sectorsPerFat * boot.bpb.bps * 8 / 32 := Nat.mod_eq_of_lt (by omega)
+  obtain ⟨L, hL, heff, h8, hfitE⟩ := formatFat32_exact (s0 := fmtSlice boot.bpb) rfl hmir boot.bpb.media
+    (boot.bpb.sectorsPerFat * boot.bpb.bps) tc dA s dB hdev (by rw [hmod]; omega) hrun
+  have hLf : L = Lf := Seg.unique hL hsf
+  subst hLf
+  rw [hmod] at heff hfitE
+  -- the FAT32 tail
+  have htl := R.tail.resolve_right (fun hh => hh.1 rfl)
+  obtain ⟨_, La, Lc, Li, Ll, hLt, hWa, hTc, ⟨_, _, hTi⟩, hll, ⟨s2, dA2, dB2, hdev2, hrun2, hsa⟩⟩ := htl
+  obtain ⟨hfit2, La', hLa', heffA⟩ := alloc32_exact (s0 := fmtSlice boot.bpb) rfl hmir
+    (SliceInv.self (Nat.zero_le _)) dA2 hdev2 hrun2
+  have hLa : La' = La := Seg.unique hLa' hsa
+  subst hLa
+  -- sizes and positions
+  have hZdef : (fmtSlice boot.bpb).size = boot.bpb.sectorsPerFat * boot.bpb.bps := rfl
+  have hBdef : (fmtSlice boot.bpb).beginOff = boot.bpb.reserved * boot.bpb.bps := rfl
+  have hMdef : (fmtSlice boot.bpb).mirrors = boot.bpb.fats := rfl
+  have o2 := fatBeg_32 hg rfl
+  have hpos : ∀ x, x < boot.bpb.sectorsPerFat * boot.bpb.bps →
+      boot.bpb.reserved * boot.bpb.bps + i * (boot.bpb.sectorsPerFat * boot.bpb.bps) + x <
+        (boot.bpb.reserved + boot.bpb.fats * boot.bpb.sectorsPerFat) * boot.bpb.bps := by
+    intro x hx
+    rw [FmtGeom.fatEnd_eq]
+    have := Nat.mul_le_mul_right (boot.bpb.sectorsPerFat * boot.bpb.bps) (show i + 1 ≤ boot.bpb.fats from hi)
+    rw [Nat.add_mul, Nat.one_mul] at this
+    omega
+  have hWi := hTi.within
+  rw [List.length_append, List.length_replicate, List.length_take, fsInfoBytes_len] at hWi
+  -- peel the records after the FAT phases
+  have peel : ∀ x, x < boot.bpb.sectorsPerFat * boot.bpb.bps → G x =
+      replay g (La' ++ (Lr ++ (L ++ (Lz ++ (Lk ++ (Lb ++ d.writesOf))))))
+        (boot.bpb.reserved * boot.bpb.bps + i * (boot.bpb.sectorsPerFat * boot.bpb.bps) + x) := by
+    intro x hx
+    have hp := hpos x hx
+    show d'.bytes g _ = _
+    rw [← Dev.bytes_writesOf, hf.writes, hLt]
+    simp only [List.append_assoc]
+    rw [(labelSpec_within hll).skip g _ _ (Or.inl hp), hWi.skip g _ _ (Or.inr (by omega)),
+      hTc.within.skip g _ _ (Or.inl hp)]
+  -- below the alloc/format effects: the zero fill
+  have zero : ∀ x, x < boot.bpb.sectorsPerFat * boot.bpb.bps →
+      replay g (Lz ++ (Lk ++ (Lb ++ d.writesOf)))
+        (boot.bpb.reserved * boot.bpb.bps + i * (boot.bpb.sectorsPerFat * boot.bpb.bps) + x) = 0 := by
+    intro x hx
+    have hp := hpos x hx
+    rw [FmtGeom.fatEnd_eq] at hp
+    rw [hf.fatZeroT.replay, List.length_replicate, Nat.mul_assoc boot.bpb.fats, if_pos ⟨by omega, hp⟩,
+      getD_replicate_zero]
+  have eA := heffA g (Lr ++ (L ++ (Lz ++ (Lk ++ (Lb ++ d.writesOf))))) i (by rw [hMdef]; exact hi)
+  have eF := heff g (Lz ++ (Lk ++ (Lb ++ d.writesOf))) i (by rw [hMdef]; exact hi)
+  rw [hBdef, hZdef] at eA eF
+  rw [hZdef] at h8 hfit2 hfitE
+  have skipR : ∀ x, x < boot.bpb.sectorsPerFat * boot.bpb.bps →
+      replay g (Lr ++ (L ++ (Lz ++ (Lk ++ (Lb ++ d.writesOf)))))
+        (boot.bpb.reserved * boot.bpb.bps + i * (boot.bpb.sectorsPerFat * boot.bpb.bps) + x) =
+      replay g (L ++ (Lz ++ (Lk ++ (Lb ++ d.writesOf))))
+        (boot.bpb.reserved * boot.bpb.bps + i * (boot.bpb.sectorsPerFat * boot.bpb.bps) + x) :=
+    fun x hx => R.rootZero.skip g _ _ (Or.inl (hpos x hx))
+  have hcapc := hg.cap
+  rw [show (fmtTotal o d - (boot.bpb.reserved + boot.bpb.fats * boot.bpb.sectorsPerFat + boot.bpb.rootDirSectors)) /
+      boot.bpb.spc = tc by have := hg.tc; rw [htc] at this; cases this; rfl] at hcapc
+  simp only [FatType.bits] at hcapc
+  have hE : tc + 2 + (boot.bpb.sectorsPerFat * boot.bpb.bps * 8 / 32 - (tc + 2)) =
+      boot.bpb.sectorsPerFat * boot.bpb.bps * 8 / 32 := by omega
+  rw [hE] at eF hfitE
+  have hmedia := hg.media
+  have htc1 : 65525 ≤ tc := by
+    have h1 := hg.ftc
+    have h2 := hg.tc; rw [htc] at h2; cases h2
+    generalize (fmtTotal o d - (boot.bpb.reserved + boot.bpb.fats * boot.bpb.sectorsPerFat +
+      boot.bpb.rootDirSectors)) / boot.bpb.spc = n at h1 ⊢
+    unfold FatType.fromClusters at h1
+    repeat' split at h1
+    all_goals first | omega | cases h1
+  refine ⟨?_, ?_, ?_, ?_, ?_⟩
+  · intro x hx
+    rw [peel x (by omega), eA.2 x (by omega) (by omega), skipR x (by omega), eF.1 x hx, hmedia]
+  · intro x h4 hx8
+    rw [peel x (by omega), eA.2 x (by omega) (by omega), skipR x (by omega), eF.2.1 x h4 hx8]
+  · refine (eA.1 2 (by omega) (by omega)).congr ?_
+    intro x hx1 hx2
+    exact peel x (by omega)
+  · intro c hc1 hc2
+    have hfe := hfitE (by omega)
+    have := eF.2.2.1 c hc1 hc2
+    refine this.congr ?_
+    intro x hx1 hx2
+    have hxZ : x < boot.bpb.sectorsPerFat * boot.bpb.bps := by omega
+    rw [peel x hxZ, eA.2 x hxZ (by omega), skipR x hxZ]
+  · intro x h12 hlt
+    have hxZ : x < boot.bpb.sectorsPerFat * boot.bpb.bps := by omega
+    rw [peel x hxZ, eA.2 x hxZ (by omega), skipR x hxZ, eF.2.2.2 x hxZ (by omega) (by omega), zero x hxZ]
+
+theorem view32_of (f : Array Nat) (c : Nat) (h1 : c * 4 < Fat.u32Lim) (h2 : c * 4 + 4 ≤ f.size) :
+    Fat.view .fat32 f c = Fat.classify32 c (Fat.rd32 f (c * 4) % 268435456) := by
+  simp only [Fat.view, Fat.get, Fat.getRaw, Fat.getRaw32]
+  rw [if_neg (by omega), if_neg (by omega)]
+  rfl
+
+/-- an `Entry32` read back through `Fat.rd32`: the low 28 bits -/
+theorem rd32_of_entry {f : Array Nat} {h : Nat → Nat} {c a : Nat} (he : Entry32 h c a)
+    (hf : ∀ x, c * 4 ≤ x → x < c * 4 + 4 → Fat.rd f x = h x) : Fat.rd32 f (c * 4) % 268435456 = a := by
+  obtain ⟨w, h0, h1, h2, h3, h4⟩ := he
+  unfold Fat.rd32
+  rw [hf _ (by omega) (by omega), hf _ (by omega) (by omega), hf _ (by omega) (by omega), hf _ (by omega) (by omega),
+    h1, h2, h3, h4]
+  omega
+
+/-- **`formatFat_view`, FAT32** (volumes whose FAT has no room for the BAD markers, `capacity ≤ 0x0FFFFFF0`): after
+    a successful `format_volume`, in every FAT copy (log replay over arbitrary previous contents): entry 0 is
+    `media | 0x0FFFFF00`, entry 1 is `0xFFFFFFFF`, entry 2 (the root directory cluster) is end-of-chain, entries
+    `[3, total+2)` are free, entries `[total+2, capacity)` are end-of-chain. -/
+theorem formatFat_view_fat32 (o : FormatOpts) (d d' : Dev) (h : FormatRun o d d') (boot : FBoot)
+    (hc : formatChecked o (fmtTotal o d) = .ok (boot, .fat32))
+    (hcap : boot.bpb.sectorsPerFat * boot.bpb.bps * 8 / 32 ≤ 0x0FFFFFF0) :
+    ∃ tc, boot.bpb.totalClusters = .ok tc ∧ ∀ (g : Nat → Nat) (i : Nat), i < boot.bpb.fats →
+      Fat.getRaw .fat32 (fatCopy g d' boot.bpb i) 0 = .ok ((o.media ||| 0x0FFFFF00) % 4294967296) ∧
+      Fat.getRaw .fat32 (fatCopy g d' boot.bpb i) 1 = .ok 0xFFFFFFFF ∧
+      Fat.view .fat32 (fatCopy g d' boot.bpb i) 2 = .eoc ∧
+      (∀ c, 3 ≤ c → c < tc + 2 → Fat.view .fat32 (fatCopy g d' boot.bpb i) c = .free) ∧
+      (∀ c, tc + 2 ≤ c → c < boot.bpb.sectorsPerFat * boot.bpb.bps * 8 / 32 →
+        Fat.view .fat32 (fatCopy g d' boot.bpb i) c = .eoc) := by
+  obtain ⟨boot', ft', Lb, Lk, Lz, Lf, Lr, Lt, hf⟩ := h.facts
+  obtain ⟨rfl, rfl⟩ := facts_unique hf hc
+  have hg := hf.geom
+  refine ⟨_, hg.tc, fun g i hi => ?_⟩
+  generalize htcv : (fmtTotal o d - (boot'.bpb.reserved + boot'.bpb.fats * boot'.bpb.sectorsPerFat +
+    boot'.bpb.rootDirSectors)) / boot'.bpb.spc = tc
+  have htc := hg.tc; rw [htcv] at htc
+  have hcapc := hg.cap; rw [htcv] at hcapc
+  simp only [FatType.bits] at hcapc
+  have hmax := hg.tcmax; rw [htcv] at hmax
+  simp only [maxClusters] at hmax
+  obtain ⟨b0, b1, e2, eE, eZ⟩ := fat32_bytes o d d' h hf tc htc hcap g i hi
+  dsimp only at b0 b1 eZ
+  have hB := hg.bps_ge
+  have hZ1 : 512 ≤ boot'.bpb.sectorsPerFat * boot'.bpb.bps := by
+    have := Nat.mul_le_mul hg.spf1 hB; omega
+  generalize hZe : boot'.bpb.sectorsPerFat * boot'.bpb.bps = Z at *
+  have hrd : ∀ x, x < Z → Fat.rd (fatCopy g d' boot'.bpb i) x =
+      d'.bytes g (boot'.bpb.reserved * boot'.bpb.bps + i * Z + x) := by
+    intro x hx
+    rw [rd_fatCopy g d' boot'.bpb i x (by rw [hZe]; exact hx), hZe]
+  have hsize : (fatCopy g d' boot'.bpb i).size = Z := by rw [fatCopy_size, hZe]
+  refine ⟨?_, ?_, ?_, ?_, ?_⟩
+  · simp only [Fat.getRaw, Fat.getRaw32, Fat.u32Lim, hsize]
+    rw [if_neg (by omega), if_neg (by omega)]
+    simp only [Fat.rd32, Nat.zero_mul, Nat.zero_add]
+    rw [hrd 0 (by omega), hrd 1 (by omega), hrd 2 (by omega), hrd 3 (by omega), b0 0 (by omega), b0 1 (by omega),
+      b0 2 (by omega), b0 3 (by omega)]
+    simp only [bytesLe32, List.getD_cons_zero, List.getD_cons_succ]
+    congr 1; omega
+  · simp only [Fat.getRaw, Fat.getRaw32, Fat.u32Lim, hsize]
+    rw [if_neg (by omega), if_neg (by omega)]
+    simp only [Fat.rd32, Nat.one_mul]
+    rw [hrd 4 (by omega), hrd 5 (by omega), hrd 6 (by omega), hrd 7 (by omega), b1 4 (by omega) (by omega),
+      b1 5 (by omega) (by omega), b1 6 (by omega) (by omega), b1 7 (by omega) (by omega)]
+  · rw [view32_of _ _ (by unfold Fat.u32Lim; omega) (by rw [hsize]; omega),
+      rd32_of_entry e2 (fun x h1 h2 => hrd x (by omega))]
+    decide
+  · intro c h3 hlt
+    have hz : ∀ x, c * 4 ≤ x → x < c * 4 + 4 → Fat.rd (fatCopy g d' boot'.bpb i) x = 0 := by
+      intro x h1 h2
+      rw [hrd x (by omega)]; exact eZ x (by omega) (by omega)
+    rw [view32_of _ _ (by unfold Fat.u32Lim; omega) (by rw [hsize]; omega)]
+    unfold Fat.rd32
+    rw [hz _ (by omega) (by omega), hz _ (by omega) (by omega), hz _ (by omega) (by omega), hz _ (by omega) (by omega)]
+    have hns : ¬ Fat.special32 c := by unfold Fat.special32; omega
+    simp [Fat.classify32, hns]
+  · intro c h1 h2
+    rw [view32_of _ _ (by unfold Fat.u32Lim; omega) (by rw [hsize]; omega),
+      rd32_of_entry (eE c h1 h2) (fun x h3 h4 => hrd x (by omega))]
+    simp only [Fat.classify32]
+    rw [if_neg (by omega), if_neg (by omega), if_pos (by omega)]
+
+/-! ### all FAT copies are equal (every FAT type, FAT12 included) -/
+
+theorem copiesEqual_outside {B Z M : Nat} {g : Nat → Nat} {L rest : List LogItem}
+    (h : CopiesEqual B Z M (replay g rest))
+    (hout : ∀ off bs, LogItem.write off bs ∈ L → off + bs.length ≤ B ∨ B + M * Z ≤ off) :
+    CopiesEqual B Z M (replay g (L ++ rest)) := by
+  intro i hi x hx
+  have hb : B + i * Z + x < B + M * Z := by
+    have := Nat.mul_le_mul_right Z (show i + 1 ≤ M from hi)
+    rw [Nat.add_mul, Nat.one_mul] at this
+    omega
+  have hb0 : B + x < B + M * Z := by
+    have := Nat.mul_le_mul_right Z (show 1 ≤ M by omega)
+    omega
+  rw [replay_skip g L rest _ (fun off bs hm hc => by rcases hout off bs hm with a | a <;> omega),
+    replay_skip g L rest _ (fun off bs hm hc => by rcases hout off bs hm with a | a <;> omega)]
+  exact h i hi x hx
+
+theorem statusOff_le (fs : FsState) : statusOff fs + 1 ≤ 512 := by
+  unfold statusOff; split <;> omega
+
+/-- **all FAT copies hold the same bytes** after a successful `format_volume` (log replay over arbitrary previous
+    contents), for FAT12, FAT16 and FAT32 alike: every FAT write of `format_fat`/`alloc_cluster` goes through the
+    mirroring `DiskSlice`, and the zero fill covers all copies -/
+theorem format_fat_copies_equal (o : FormatOpts) (d d' : Dev) (h : FormatRun o d d') :
+    ∃ boot ft, formatChecked o (fmtTotal o d) = .ok (boot, ft) ∧ ∀ (g : Nat → Nat),
+      CopiesEqual (boot.bpb.reserved * boot.bpb.bps) (boot.bpb.sectorsPerFat * boot.bpb.bps) boot.bpb.fats (d'.bytes g) := by
+  obtain ⟨boot, ft, Lb, Lk, Lz, Lf, Lr, Lt, hf⟩ := h.facts
+  refine ⟨boot, ft, hf.checked, fun g => ?_⟩
+  have R := hf.regions
+  have hg := hf.geom
+  obtain ⟨d0, hl0, hs0, hlog⟩ := hf.log
+  obtain ⟨dK, hsK, hsizeK, hfr⟩ := hlog.rest
+  obtain ⟨tc, s, dA, dB, dC, htc, hsA, hsizeA, hrun, hsf, hsr, hsizeC, _⟩ := hfr.fmt
+  rw [fmtSlice_eq boot.bpb ft hg.extFlags] at hrun
+  have hmir : 0 < (fmtSlice boot.bpb).mirrors := by show 0 < boot.bpb.fats; have := hg.fats; omega
+  have hbpsO : boot.bpb.bps = o.bps := by
+    obtain ⟨c, _, _, _, _, _, _, _, hboot, _⟩ := formatChecked_ok_layout h.acc h.tot hf.checked
+    rw [hboot]; rfl
+  have hwinsz : (fmtSlice boot.bpb).beginOff + (fmtSlice boot.bpb).mirrors * (fmtSlice boot.bpb).size ≤ d.img.size :=
+    Nat.le_trans hg.window_le (by rw [hbpsO]; exact h.size)
+  have hinv : SliceInv (fmtSlice boot.bpb) (fmtSlice boot.bpb) := SliceInv.self (Nat.zero_le _)
+  have hBge := fatBeg_ge hg
+  have hB := hg.bps_ge
+  have hwindow : boot.bpb.reserved * boot.bpb.bps + boot.bpb.fats * (boot.bpb.sectorsPerFat * boot.bpb.bps) =
+      (boot.bpb.reserved + boot.bpb.fats * boot.bpb.sectorsPerFat) * boot.bpb.bps := (FmtGeom.fatEnd_eq).symm
+  -- after the zero fill all copies are zero
+  have c0 : CopiesEqual (boot.bpb.reserved * boot.bpb.bps) (boot.bpb.sectorsPerFat * boot.bpb.bps) boot.bpb.fats
+      (replay g (Lz ++ (Lk ++ (Lb ++ d.writesOf)))) := by
+    have zero : ∀ i, i < boot.bpb.fats → ∀ x, x < boot.bpb.sectorsPerFat * boot.bpb.bps →
+        replay g (Lz ++ (Lk ++ (Lb ++ d.writesOf)))
+          (boot.bpb.reserved * boot.bpb.bps + i * (boot.bpb.sectorsPerFat * boot.bpb.bps) + x) = 0 := by
+      intro i hi x hx
+      have := Nat.mul_le_mul_right (boot.bpb.sectorsPerFat * boot.bpb.bps) (show i + 1 ≤ boot.bpb.fats from hi)
+      rw [Nat.add_mul, Nat.one_mul] at this
+      rw [hf.fatZeroT.replay, List.length_replicate, Nat.mul_assoc boot.bpb.fats,
+        if_pos ⟨by omega, by omega⟩, getD_replicate_zero]
+    intro i hi x hx
+    have z0 := zero 0 (by have := hg.fats; omega) x hx
+    rw [Nat.zero_mul, Nat.add_zero] at z0
+    rw [zero i hi x hx, z0]
+  -- format_fat
+  have hmsF := ((fat_ops_mirrored (sz := d.img.size) hmir hwinsz ft hinv).2.2.2 boot.bpb.media
+    (boot.bpb.sectorsPerFat * boot.bpb.bps) tc).out dA s dB (by rw [hsizeA, hsizeK, hs0]) hrun
+  obtain ⟨items, hit, c1⟩ := mirroredSeq_copies_equal hmsF.1
+    (Nat.le_trans (statusOff_le _) (Nat.le_trans hB hBge)) _ c0
+  have : items = Lf := Seg.unique hit hsf
+  subst this
+  rw [← replay_append] at c1
+  -- root zero fill: outside the window
+  have c2 : CopiesEqual (boot.bpb.reserved * boot.bpb.bps) (boot.bpb.sectorsPerFat * boot.bpb.bps) boot.bpb.fats
+      (replay g (Lr ++ (items ++ (Lz ++ (Lk ++ (Lb ++ d.writesOf)))))) :=
+    copiesEqual_outside c1 (fun off bs hm => Or.inr (by rw [hwindow]; exact (R.rootZero _ _ hm).1))
+  rw [← Dev.bytes_writesOf, hf.writes]
+  rcases R.tail with ⟨h32, La, Lc, Li, Ll, hLt, hWa, hTc, ⟨_, _, hTi⟩, hll, ⟨s2, dA2, dB2, hdev2, hrun2, hsa⟩⟩ | ⟨hne, hll⟩
+  · subst h32
+    have hmsA := ((fat_ops_mirrored (sz := dA2.img.size) hmir hdev2 .fat32 hinv).1 none none 1).out dA2 _ dB2 rfl hrun2
+    obtain ⟨itemsA, hitA, c3⟩ := mirroredSeq_copies_equal hmsA.1
+      (Nat.le_trans (statusOff_le _) (Nat.le_trans hB hBge)) _ c2
+    have : itemsA = La := Seg.unique hitA hsa
+    subst this
+    rw [← replay_append] at c3
+    rw [hLt]
+    simp only [List.append_assoc]
+    have o2 := fatBeg_32 hg rfl
+    have hWi := hTi.within
+    rw [List.length_append, List.length_replicate, List.length_take, fsInfoBytes_len] at hWi
+    refine copiesEqual_outside (copiesEqual_outside (copiesEqual_outside c3 ?_) ?_) ?_
+    · intro off bs hm; right; rw [hwindow]; exact (hTc.within _ _ hm).1
+    · intro off bs hm; left; have := hWi _ _ hm; omega
+    · intro off bs hm; right; rw [hwindow]; exact (labelSpec_within hll _ _ hm).1
+  · exact copiesEqual_outside c2 (fun off bs hm => Or.inr (by rw [hwindow]; exact (labelSpec_within hll _ _ hm).1))
+
+/-! ### what is NOT proved of (2), and why
+
+* **FAT12 entry values.** `Fat12::set` is a read-modify-write of a 16-bit window (`old & 0xF000 | v` resp.
+  `old & 0x000F | v << 4`): the nibble of the neighbouring entry it writes back is what the device READ returned.
+  At the level of the write log nothing is known about reads (that `Img.write`/`Img.read` realise `applyRec` on the
+  sparse page image is not proved anywhere), so the entry values of a FAT12 table after `format_fat` cannot be derived
+  here. Proved for FAT12: where it writes (`format_no_other_writes`), the zero fill, and `format_fat_copies_equal`.
+  Missing lemma: `(i.write off bs).getByte p = if off ≤ p < off + |bs| then bs[p-off] % 256 else i.getByte p` for
+  well-formed `Img` (all pages of size 4096), lifted along `run` to `d.img.getByte p = replay g d.log p % 256`.
+* **FAT32, reserved top bits.** `Fat32::set` keeps the top 4 bits it read; hence FAT32 entries are characterised up
+  to those bits (`Entry32`), which is exactly what `Fat.view` looks at.
+* **FAT32 with BAD markers** (`capacity > 0x0FFFFFF0`, i.e. FATs of more than 1 GiB): excluded by hypothesis `hcap`.
+* **Success of the run** is a hypothesis (`FormatRun.ok`): `alloc_cluster` must read back a free entry 2.
+* **(6) `format_then_mount`** is not attempted; `C06.format_valid` gives `validateBoot boot = ok` and
+  `format_writes_boot` that sector 0 replays to `boot.serialize`.
+-/
+
+/-! ## the hypotheses are satisfiable -/
+
+namespace Ex
+def okUnit : Except Err Unit → Bool | .ok _ => true | .error _ => false
+
+theorem run_of_okUnit {p : Prog Unit} {d : Dev} (h : okUnit (run p d).1 = true) : run p d = (.ok (), (run p d).2) := by
+  rcases hr : run p d with ⟨r, d'⟩
+  rw [hr] at h
+  cases r with
+  | ok u => rfl
+  | error e => cases h
+
+/-- FAT12: 343 sectors, 16 root entries -/
+def o12 : FormatOpts := { rootEntries := 16, totalSectors := some 343 }
+def d12 : Dev := { img := Img.empty (343 * 512) }
+
+/-- FAT16 with a label: 4200 sectors, 512-byte clusters -/
+def o16 : FormatOpts :=
+  { rootEntries := 16, totalSectors := some 4200, fatType := some .fat16, bpc := some 512,
+    label := some [65, 66, 67, 32, 32, 32, 32, 32, 32, 32, 32] }
+def d16 : Dev := { img := Img.empty (4200 * 512) }
+
+def o32 : FormatOpts := { totalSectors := some 66700, fatType := some .fat32, bpc := some 512 }
+
+theorem inRange_of (o : FormatOpts) (h1 : o.media < 256) (h2 : o.spt < 65536) (h3 : o.heads < 65536)
+    (h4 : o.driveNum = none) (h5 : o.volumeId < 4294967296) (h6 : ∀ l, o.label = some l → l.length = 11) : InRange o :=
+  ⟨h1, h2, h3, (by intro d hd; rw [h4] at hd; cases hd), h5, h6⟩
+
+set_option maxRecDepth 100000 in
+example : ∃ d', FormatRun o12 d12 d' := by
+  refine ⟨_, ⟨by simp [o12], ?_, Or.inr rfl, by simp [o12]⟩,
+    inRange_of _ (by simp [o12]) (by simp [o12]) (by simp [o12]) rfl (by simp [o12]) (by intro l h; cases h),
+    run_of_okUnit (by decide +kernel), by decide, by decide⟩
+  intro c h; cases h
+
+set_option maxRecDepth 100000 in
+example : ∃ d' boot, FormatRun o16 d16 d' ∧ formatChecked o16 (fmtTotal o16 d16) = .ok (boot, .fat16) := by
+  have hrun : FormatRun o16 d16 (run (formatVolume o16) d16).2 := by
+    refine ⟨⟨by simp [o16], ?_, Or.inr rfl, by simp [o16]⟩,
+      inRange_of _ (by simp [o16]) (by simp [o16]) (by simp [o16]) rfl (by simp [o16]) ?_,
+      run_of_okUnit (by decide +kernel), by decide, by decide⟩
+    · intro c h; cases h; simp [bpcValues]
+    · intro l h; cases h; rfl
+  obtain ⟨boot, ft, Lb, Lk, Lz, Lf, Lr, Lt, hf⟩ := hrun.facts
+  have hft : ft = .fat16 := by
+    have hm := (formatChecked_ok_layout hrun.acc hrun.tot hf.checked).choose_spec.2.2.2.1
+    simpa [o16, allowedTypes] using hm
+  subst hft
+  exact ⟨_, boot, hrun, hf.checked⟩
+
+/-- the FAT32 hypotheses (at the level of the boot sector; a complete FAT32 run is too large for kernel evaluation) -/
+example : ((formatChecked o32 66700).toOption.map fun r =>
+    (r.2, decide (r.1.bpb.sectorsPerFat * r.1.bpb.bps * 8 / 32 ≤ 0x0FFFFFF0))) = some (.fat32, true) := by
+  decide +kernel
+
+end Ex
 
 end FatVerif.C06image
